@@ -4,8 +4,9 @@
    Every proof is `exact <lemma>`.  The delivery part (a request only completes with data its
    validator accepted) is C01_delivery at the end, about the protocol model Model/Proto.v. *)
 From Coq Require Import ZArith List Bool String.
-From GW Require Import Prelude PyStr Crc16 Frames Responses CrcTable ModbusGen ProtoGen RtuResp CmdResp Proto ProtoEvolves.
-Import ListNotations.
+From RecordUpdate Require Import RecordSet.
+From GW Require Import Callbacks CallbackGen CallbackRefine CallbackSend Coroutines CoroutineGen CoroutineRefine Prelude PyStr Crc16 Frames Responses CrcTable ModbusGen ProtoGen RtuResp CmdResp Proto ProtoEvolves.
+Import ListNotations RecordSetNotations.
 Open Scope Z_scope.
 
 (* a response validator has exactly four outcomes: accept, refuse, 'partial', 'rejected' -- for every
@@ -70,6 +71,38 @@ Theorem C01_delivery : forall es k ka r s acts, Proto.run (Proto.init k ka r) es
   forall c t, In (ADone c (OResp t)) acts -> In t (s_accepted s).
 Proof. exact delivery. Qed.
 
+(* The model's steps ARE the current source (translated on this run, fail-closed).  Reception: interpreting the generated programs of
+   datagram_received / data_received gives `received` for every state, datagram and validator verdict -- a result is set only on 'accept'. *)
+Theorem C01_datagram_received_is_the_model : forall s id len v, s_kind s = UDP -> s_cmd s = true ->
+  runm udp_datagram_received s (rx_locals id len v) = received s id len v.
+Proof. exact udp_datagram_received_refined. Qed.
+Theorem C01_data_received_is_the_model : forall s id len v, s_kind s = TCP -> s_cmd s = true ->
+  runm tcp_data_received s (rx_locals id len v) = received s id len v.
+Proof. exact tcp_data_received_refined. Qed.
+
+(* Transmission: `self.command` (whose validator judges what is received) is assigned by _send_request together with the response future and the
+   reset of the fragment state, in the same synchronous step that puts the request on the wire -- the generated program is the model's do_send *)
+Theorem C01_transmission_is_the_model : forall s k d t,
+  do_send s k d t =
+  let f := List.length (s_futs s) in
+  let l := locals0 <| l_transport := t |> <| l_fut := f |> <| l_task := k |> in
+  match execb (send_prog (s_kind s)) (s <| s_futs := (s_futs s ++ [FPending])%list |>) l with
+  | (s', _, acts, _) =>
+      match fstat_of s' f with
+      | FPending => (set_pc (upd_task s' k (fun tk => tk <| t_depth := d |>)) k (PcAwait f), acts, None)
+      | FExc e => (s', acts, Some (RRaise e))
+      | FCancelled => (s', acts, Some (RRaise XCancelled))
+      | FResult _ => (s', acts, Some (RFut f))
+      end
+  end.
+Proof. exact do_send_refined. Qed.
+
+(* ... and _send_request is reached only from the coroutine send_request, whose skeleton (tools/co2v.py: the lock is acquired FIRST, then connect,
+   create the future, _send_request, await; the except clauses retry through the same path) is the one the model runs *)
+Theorem C01_send_request_is_the_model : forall again s k d e,
+  sr_exception again s k d e = g_sr_exception again (sr_shape_of (s_kind s)) s k d e.
+Proof. exact sr_exception_refined. Qed.
+
 Print Assumptions C01_total.
 Print Assumptions C01_delivery.
 Print Assumptions C01_rtu_read_sound.
@@ -83,3 +116,7 @@ Print Assumptions C01_aa55_write_sound.
 Print Assumptions C01_aa55_write_multi_sound.
 Print Assumptions C01_aa55_generic_sound.
 Print Assumptions C01_crc.
+Print Assumptions C01_datagram_received_is_the_model.
+Print Assumptions C01_data_received_is_the_model.
+Print Assumptions C01_transmission_is_the_model.
+Print Assumptions C01_send_request_is_the_model.
